@@ -311,12 +311,13 @@ def rule_m2(repo, res):
         for n in ast.walk(fn):
             if isinstance(n, ast.Call) and isinstance(n.func, ast.Name) and dal.get(n.func.id) == "__setitem__" and len(n.args) == 3:
                 v = n.args[2]
-                ok = isinstance(v, (ast.List, ast.ListComp)) or (isinstance(v, ast.Call) and norm(v.func) == "list")
+                is_list = lambda x: isinstance(x, (ast.List, ast.ListComp)) or (isinstance(x, ast.Call) and norm(x.func) == "list") \
+                    or (isinstance(x, ast.IfExp) and is_list(x.body) and is_list(x.orelse))
+                ok = is_list(v)
                 if isinstance(v, ast.Name):
                     defs = [a.value for a in ast.walk(fn) if isinstance(a, ast.Assign) and isinstance(a.targets[0], ast.Name)
                             and a.targets[0].id == v.id]
-                    ok = bool(defs) and all(isinstance(d, (ast.List, ast.ListComp)) or
-                                            (isinstance(d, ast.Call) and norm(d.func) == "list") for d in defs)
+                    ok = bool(defs) and all(is_list(d) for d in defs)
                 res.oblige("M2-REP", f"{CONTAINER}.{name} `{norm(n, 70)}` stores a list of values", ok=ok)
                 if not ok:
                     res.add(Finding("M2-REP", f"{CONTAINER}.{name}", norm(n, 70),
@@ -635,6 +636,41 @@ def rule_p5(repo, res):
                                 "the original; the value can hold a mutable list (units after a sequence give Quantity(value=[...], ...)), so "
                                 "a change made through the copy shows in the original", where=f"pvl/collections.py:{r.lineno}"))
     res.oblige("P5", f"{n} __copy__/__deepcopy__ method(s) in pvl/collections.py examined", ok=True, nontrivial=False)
+
+
+def rule_p6(repo, res):
+    """P6: a copy hook of a container class fills the new container pair by pair (constructor argument, extend,
+    append, insert) -- never through update() or item assignment, which are keyed: a repeated key keeps one value."""
+    n = 0
+    for cname, cnode in repo.module("collections").classes.items():
+        if cname not in repo.classes:
+            continue
+        mro = repo.mro(cname)
+        if not any(b in mro for b in (CONTAINER, "MutableMappingSequence")) and cname != CONTAINER:
+            continue
+        for fn in [x for x in cnode.body if isinstance(x, ast.FunctionDef) and x.name in ("__copy__", "__deepcopy__", "copy")]:
+            n += 1
+            fresh = set()
+            for a in ast.walk(fn):
+                if isinstance(a, ast.Assign) and isinstance(a.value, ast.Call) and len(a.targets) == 1 and isinstance(a.targets[0], ast.Name) \
+                        and norm(a.value.func) in ("type(self)", "self.__class__", cname, CONTAINER, "cls"):
+                    fresh.add(a.targets[0].id)
+            bad = []
+            for x in ast.walk(fn):
+                if isinstance(x, ast.Call) and isinstance(x.func, ast.Attribute) and x.func.attr in ("update", "setdefault", "__setitem__") \
+                        and isinstance(x.func.value, ast.Name) and x.func.value.id in fresh:
+                    bad.append((x, f"{x.func.value.id}.{x.func.attr}(...)"))
+                if isinstance(x, ast.Assign):
+                    for t in x.targets:
+                        if isinstance(t, ast.Subscript) and isinstance(t.value, ast.Name) and t.value.id in fresh:
+                            bad.append((x, norm(x, 50)))
+            res.oblige("P6", f"{cname}.{fn.name} fills its copy pair by pair (no keyed update / item assignment)", ok=not bad)
+            for x, what in bad:
+                res.add(Finding("P6", f"{cname}.{fn.name}", "copy filled through a keyed operation",
+                                f"{cname}.{fn.name} fills the new container with `{what}`: update() and item assignment replace by "
+                                "key, so a container that repeats a key is copied with one value for it -- the copy is not equal "
+                                "to the original", where=f"pvl/collections.py:{x.lineno}"))
+    res.oblige("P6", f"{n} copy hook(s) of container classes examined", ok=True, nontrivial=False)
 
 
 def rule_p2(repo, res):
